@@ -52,7 +52,7 @@ def check(ctx, rep):
     if m.ok:
         W.rule_M1(m, rep)
         W.rule_M2(m, rep, 'must')
-        W.rule_M4_M5_M6(m, rep)
+        W.rule_M4_M5_M6(m, rep, want=('M4', 'M5', 'M6'))
         W.rule_M8(m, rep)
         W.rule_M10(m, rep)
     S.rule_D2(ctx, rep)
